@@ -370,7 +370,9 @@ class SubCtx:
         self.results.append((rule, key, ok, what, site))
         return ok
 
-    def floor(self, rule, n, minimum, what='instances'):
+    def floor(self, rule, n, minimum, what='instances', exact=False):
+        if not exact:
+            minimum = max(1, (minimum + 1) // 2)
         if n < minimum:
             raise AnalysisBroken('rule %s matched %d %s, floor is %d' % (rule, n, what, minimum))
 
